@@ -1,6 +1,7 @@
 /- line-protocol driver for the checkpoint-directory model (C11) -/
 import Flax.Base.Proto
 import Flax.Model.Ckpt
+import Flax.Model.NatSort
 
 namespace Flax.Driver.C11
 open Lean Flax.Proto Flax.Ckpt
@@ -112,8 +113,30 @@ def moveOfJson (j : Json) : Except String Move := do
   | "c" => pure .caller
   | _ => .error "bad-args"
 
+def tokJ : NatSort.Tok → Json
+  | .text s => Json.arr #[.str "t", .str (String.ofList s)]
+  | .num s => Json.arr #[.str "n", .str (String.ofList s)]
+
+def ordJ : Ordering → Json
+  | .lt => .num (-1 : Int)
+  | .eq => .num (0 : Int)
+  | .gt => .num (1 : Int)
+
 def handle : Handler := fun fn args =>
   match fn with
+  | "tokens" => do
+      let ss ← asList asStr (← argAt args 0)
+      .ok (.arr (ss.map (fun s => Json.arr ((NatSort.tokens s.toList).map tokJ).toArray)).toArray)
+  | "natsort" => do
+      let ss ← asList asStr (← argAt args 0)
+      .ok (.arr ((NatSort.natSort (ss.map String.toList)).map (fun s => Json.str (String.ofList s))).toArray)
+  | "keycmp" => do
+      let a ← asStr (← argAt args 0)
+      let b ← asStr (← argAt args 1)
+      .ok (ordJ (NatSort.keyCmp (NatSort.natKey a.toList) (NatSort.natKey b.toList)))
+  | "show_int" => do
+      let ns ← asList asBigInt (← argAt args 0)
+      .ok (.arr (ns.map (fun n => Json.str (String.ofList (NatSort.showInt n)))).toArray)
   | "history" => do
       let cfgs ← asList cfgOfJson (← argAt args 0)
       let d ← dirOfJson (← argAt args 1)
